@@ -12,6 +12,7 @@ T2 (wiring): the lowered compute() runs for one destination particle and
 one neighbour with the equation replaced by a recorder; z3 decides that
 every d_*/s_* argument is the documented array and every pre-computed pair
 symbol passed equals its documented formula."""
+import os
 import sys
 import inspect
 import importlib
@@ -537,7 +538,103 @@ def replay(mod, cls, hook, vals):
                     p, x.tolist(), y.tolist())
                 break
     print("checked", cls, "properties", names)
+    if bad is None and hook.startswith("wiring:"):
+        # the equation's own parameters may leave the symbol unused (WDP
+        # without tensile correction): probe the symbols themselves
+        syms = [x.split("[")[0] for x in hook[7:].split(",")]
+        bad = replay_probe(syms)
     return bad
+
+
+SCALARS = ("HIJ", "R2IJ", "RIJ", "RHOIJ", "RHOIJ1", "EPS", "WIJ", "WI", "WJ",
+           "WDP", "GHI", "GHJ", "GHIJ", "WDASHI", "WDASHJ", "WDASHIJ")
+VECTORS = ("XIJ", "VIJ", "DWIJ", "DWI", "DWJ")
+
+
+def replay_probe(symbols):
+    """A probe equation that accumulates the named pre-computed symbols into
+    destination properties goes through the real code generator and
+    compiler; the sums are compared with the documented formulas evaluated
+    with the Python kernel class over the same neighbours."""
+    common.use_repo_with_build()
+    import tempfile
+    import shutil
+    import numpy as np
+    from pysph.base.utils import get_particle_array
+    from pysph.base.kernels import Gaussian
+    from pysph.tools.sph_evaluator import SPHEvaluator
+    symbols = [x for x in symbols if x in SCALARS + VECTORS]
+    if not symbols:
+        return None
+    slots = []
+    for sym in symbols:
+        if sym in VECTORS:
+            slots += [(sym, k, "pr_%s_%d" % (sym.lower(), k))
+                      for k in range(3)]
+        else:
+            slots.append((sym, None, "pr_%s" % sym.lower()))
+    src = ["from pysph.sph.equation import Equation", "",
+           "class VerifProbe(Equation):",
+           "    def initialize(self, d_idx, %s):" % ", ".join(
+               "d_" + p for _, _, p in slots)]
+    src += ["        d_%s[d_idx] = 0.0" % p for _, _, p in slots]
+    src += ["    def loop(self, d_idx, s_idx, %s, %s):" % (
+        ", ".join("d_" + p for _, _, p in slots), ", ".join(symbols))]
+    for sym, k, p in slots:
+        src.append("        d_%s[d_idx] += %s" % (
+            p, sym if k is None else "%s[%d]" % (sym, k)))
+    d_ = tempfile.mkdtemp(prefix="pysph-c02-probe-", dir="/var/tmp")
+    try:
+        with open(os.path.join(d_, "verif_probe_eq.py"), "w") as fp:
+            fp.write("\n".join(src) + "\n")
+        sys.path.insert(0, d_)
+        import verif_probe_eq
+        rng = np.random.RandomState(5)
+
+        def mk(n, npts):
+            pa = get_particle_array(
+                name=n, x=rng.uniform(0, 1, npts), y=rng.uniform(0, 1, npts),
+                z=rng.uniform(0, 1, npts), h=rng.uniform(0.3, 0.45, npts),
+                u=rng.uniform(-1, 1, npts), v=rng.uniform(-1, 1, npts),
+                w=rng.uniform(-1, 1, npts), rho=rng.uniform(0.5, 1.5, npts),
+                m=1.0)
+            for _, _, p in slots:
+                pa.add_property(p)
+            return pa
+        a, b = mk("a", 6), mk("b", 9)
+        K = Gaussian(dim=3)
+        SPHEvaluator(arrays=[a, b], equations=[verif_probe_eq.VerifProbe(
+            dest="a", sources=["a", "b"])], dim=3, kernel=K).evaluate(0.3,
+                                                                      0.1)
+        bad = None
+        for i in range(6):
+            exp = dict((p, 0.0) for _, _, p in slots)
+            for srcpa in (a, b):
+                for j in range(srcpa.get_number_of_particles()):
+                    dx = [a.x[i] - srcpa.x[j], a.y[i] - srcpa.y[j],
+                          a.z[i] - srcpa.z[j]]
+                    r = sum(q * q for q in dx) ** 0.5
+                    if r >= K.radius_scale * max(a.h[i], srcpa.h[j]):
+                        continue
+                    d = lambda q: float(getattr(a, q)[i])          # noqa
+                    s_ = lambda q: float(getattr(srcpa, q)[j])     # noqa
+                    for sym in symbols:
+                        val = documented_numeric(sym, d, s_, K)
+                        for sy, k, p in slots:
+                            if sy == sym:
+                                exp[p] += val if k is None else val[k]
+            for _, _, p in slots:
+                got = float(getattr(a, p)[i])
+                if abs(got - exp[p]) > 1e-9 * (1 + abs(exp[p])):
+                    bad = "probe equation: sum of %s over the neighbours " \
+                        "of a[%d] is %r in the compiled module, %r by the " \
+                        "documented formula" % (p[3:].upper(), i, got, exp[p])
+        return bad
+    finally:
+        if d_ in sys.path:
+            sys.path.remove(d_)
+        sys.modules.pop("verif_probe_eq", None)
+        shutil.rmtree(d_, ignore_errors=True)
 
 
 def documented_numeric(sym, d, s, K):
